@@ -136,7 +136,8 @@ class Runner:
             script[eof_at] = None
         # the device answers a valid exchange of the maximal shape; extra entries are never used
         w.device.begin(["login2", "get_state2", "generic", "generic", "generic"], script, thermo_reply(rep))
-        args = {"remote_obj": remote, "state": req[0], "mode": req[1], "temp": req[2], "fan": req[3], "swing": req[4], "update": update}
+        args = {"remote_obj": remote, "state": req[0], "mode": req[1], "temp": req[2], "fan": req[3], "swing": req[4], "update": update,
+                "positional": bool(case.get("positional"))}
         conn = w.conn
         w0 = len(conn.writes)
         try:
@@ -256,6 +257,12 @@ def all_cases(tier):
             for toggle, special in KINDS:
                 for update in (False, True):
                     cases.append(dict(rep=rep, req=list(req), toggle=toggle, special=special, update=update))
+    # the same call with every argument passed positionally (the documented order is part of the interface)
+    for rep in reps[:: max(1, len(reps) // 6)]:
+        for req in reqs[:: max(1, len(reqs) // 40)]:
+            for toggle, special in KINDS:
+                for update in (False, True):
+                    cases.append(dict(rep=rep, req=list(req), toggle=toggle, special=special, update=update, positional=True))
     # end-of-stream at each step of each exchange shape, over a spread of requests
     rep0 = dict(on=False, mode="dry", target=24, fan="low", swing=False)
     ereqs = [(None, None, 0, None, "on"), ("on", None, 0, None, None), ("off", "cool", 22, "high", "on"), (None, "heat", 0, None, "off"), (None, None, 0, None, None), (None, None, 27, None, "on")]
